@@ -38,6 +38,16 @@ def search_main():
         return
     name = meta["obligation"]
     n = 0
+    n_post = 0
+    if not (name.startswith("post#") or name.startswith("xpost:")):
+        # a proof artefact (invariant, frame, callee precondition): any clause of the contract may be the one that fails
+        try:
+            import importlib
+            mod = importlib.import_module(f"contracts.{meta['prop']}")
+            cc = next(x for x in mod.REGISTRY.all + list(getattr(mod, "BOUNDED_CONTRACTS", [])) if x.name == meta["contract"])
+            n_post = len(cc.ensures)
+        except Exception:
+            n_post = 0
     try:
         for model in runners.SEARCH[rid](meta, int(seed), int(budget)):
             n += 1
@@ -55,6 +65,15 @@ def search_main():
                     bad = ("verdict" in r and bool(r["verdict"])) or ("verdict" not in r and not eval_clause_concrete(meta, name, r))
                 except Exception:
                     bad = False
+            elif "verdict" not in r and r.get("exc") is None and n_post:
+                for k in range(n_post):
+                    try:
+                        if not eval_clause_concrete(meta, f"post#{k}:", r):
+                            bad = True
+                            out["clause"] = f"post#{k}"
+                            break
+                    except Exception:
+                        pass
             if bad:
                 out["reproduced"] = True
                 out["model"] = model
@@ -98,10 +117,10 @@ def sweep_main():
             out["samples"].append({k: repr(v)[:200] for k, v in model.items()})
         if "verdict" in r:
             out["evaluations"] += 1
-            if r["verdict"] and (len(out["failures"]) < 5 or (
-                    r.get("tag") is None and all(f["name"].endswith(str(r.get("tag"))) or "skipped-one-pass" in f["name"]
-                                                 for f in out["failures"]) and len(out["failures"]) < 40)):
-                out["failures"].append({"name": f"{c.name} :: " + (r.get("tag") or "differs from the independent decoding"),
+            fname = f"{c.name} :: " + (r.get("tag") or "differs from the independent decoding")
+            # a few witnesses per distinct failure name: a frequent (recorded) failure must not crowd out a different one
+            if r["verdict"] and sum(1 for f in out["failures"] if f["name"] == fname) < 3 and len(out["failures"]) < 40:
+                out["failures"].append({"name": fname,
                                         "model": model,
                                         "observed": repr(r.get("result"))[:300], "expected": repr(r.get("expected"))[:300]})
             continue
